@@ -91,6 +91,13 @@ def materialise(d, lib):
     import yaml
 
     os.makedirs(d, exist_ok=True)
+    if "custom" in lib:
+        # a hand-written member of the domain (declarations the row table cannot express, e.g. cpp_if)
+        cu = lib["custom"]
+        open(os.path.join(d, "sub.yaml"), "w").write(cu["yaml"])
+        open(os.path.join(d, "sub.hpp"), "w").write(cu["hpp"])
+        open(os.path.join(d, "sub.cpp"), "w").write(cu["cpp"])
+        return {"yaml": yaml.safe_load(cu["yaml"]), "header": "sub.hpp", "source": "sub.cpp", "cases": []}
     o = lib["opts"]
     opts = {"debug": o["debug"], "doxygen": o["doxygen"], "literalinclude": o["literalinclude"],
             "show_splicer_comments": o["show_splicer_comments"], "C_line_length": o["line"], "F_line_length": o["line"],
@@ -335,6 +342,7 @@ def build(d, lib):
         return {"shroud_rc": rc, "stderr": se[-1500:], "problems": [("shroud", "sub.yaml", se[-1500:])], "trace": None, "counts": {}, "files": []}
     o = lib["opts"]
     b = Build(d, out, lib["language"], inc=[PYINC, STUB])
+    b.inc += list(lib.get("defines", []))        # preprocessor symbols the library is configured with
     g = generated_files(out)
     ffiles = open(ffl).read().split() if os.path.exists(ffl) else []
     cfiles = open(cfl).read().split() if os.path.exists(cfl) else []
